@@ -93,7 +93,9 @@ Theorem C23_read_frame_length_bounded : forall maxsz stream f r,
 Proof. exact read_frame_len. Qed.
 Theorem C23_pool_capacity_bounded : forall n, pool_cap n <= N.max 256 (2 * n).
 Proof. exact pool_cap_bound. Qed.
-Theorem C23_metadata_map_hint_bounded : forall data, bytes_ok data -> md_map_hint data < 65536.
+(* the only other allocation sized from the wire, the header map's capacity hint, is proportional to
+   the metadata block: at most one entry per four bytes (after the count-guard repair of metadata.go) *)
+Theorem C23_metadata_map_hint_bounded : forall data, 10 + 4 * md_map_hint data <= N.max 10 (blen data).
 Proof. exact md_map_hint_bound. Qed.
 
 (* truncated / oversized / undersized input is an error *)
